@@ -541,3 +541,73 @@ def run(ctx):
             else:
                 ctx.ok('C15.5-newtype-payload-opaque', fnm, 'the inner value is moved into the result without being looked at', ctx.where(NBv))
     ctx.anchor(n_np >= 1, SER + 'serialize_newtype_variant: the call that serialises the inner value')
+
+
+_run_before_scope_rule = run
+
+
+def run(ctx):
+    _run_before_scope_rule(ctx)
+    scoped_thread_local_restored(ctx, 'C15.7-scoped-state-restored')
+
+
+def scoped_thread_local_restored(ctx, rule):
+    """a thread-local value set for the duration of a call is put back to what it was, not to a constant"""
+    P = ctx.P
+    ctx.rule(rule, 'a function that sets a thread-local cell, runs other code (a callback, the nested serializer) and sets the cell again on the way out writes back the value it found there: '
+             'scopes nest (a struct inside a struct), and a constant written on the way out of the inner scope switches the outer one off for the rest of its fields. A rule about what must not be there', floor=0)
+    n = 0
+    for q in sorted(ctx.F.bodies):
+        if not q.lstrip('<').startswith(('erltf::', 'erltf_serde::', 'edp_elixir_terms::')) or '::tests::' in q or ctx.F.bodies[q]['kind'] not in ('Fn', 'AssocFn', 'Closure'):
+            continue
+        DB = P.B(q)
+        sets = {}
+        for bb, t in DB.calls():
+            if bb not in DB.live_blocks():
+                continue
+            for nm in callee_names(t):
+                if 'thread::local::LocalKey::<core::cell::Cell<' in nm and nm.rsplit('::', 1)[1] in ('set', 'replace') and len(t['args']) >= 2:
+                    key = str(DB.origin(t['args'][0]))
+                    sets.setdefault(key, []).append((bb, nm.rsplit('::', 1)[1], t))
+        for key, ss in sorted(sets.items()):
+            if len(ss) < 2:
+                continue
+            # the writes on the way out: those reachable from another write to the same key with some other call in between
+            for bb, op, t in ss:
+                before = [b0 for b0, op0, t0 in ss if b0 != bb and bb in DB.reachable(b0)]
+                if not before:
+                    continue
+                between = [b1 for b1, t1 in DB.calls() if b1 not in (bb,) and all(b1 != b0 for b0 in before) and any(b1 in DB.reachable(b0) for b0 in before) and bb in DB.reachable(b1)
+                           and not any('thread::local::LocalKey' in n_ for n_ in callee_names(t1))]
+                if not between:
+                    continue
+                n += 1
+                o = DB.origin(t['args'][1])
+                name = q.split('::{')[0].rsplit('::', 1)[1]
+                kshort = key.rsplit('::', 1)[-1].strip("')")
+                if o and o[0] == 'const':
+                    ctx.bad(rule, '%s:%s' % (name, kshort), '%s sets the thread-local %s on the way in and writes the constant %s on the way out instead of the value it found: '
+                            'leaving a nested scope switches the enclosing one off' % (name, kshort, o[1]), ctx.where(DB, bb), key='SHAPE:%s:scope-exit-writes-constant:%s' % (q.split('::{')[0], kshort))
+                else:
+                    ctx.ok(rule, '%s:%s' % (name, kshort), 'the value written on the way out is computed (the saved one)', ctx.where(DB, bb))
+        # ... and on every way out: an early return between the write on the way in and the write that puts the value back leaves the cell advanced for good
+        for key, ss in sorted(sets.items()):
+            if len(ss) < 2:
+                continue
+            entries = [(bb, t) for bb, op, t in ss if not any(b0 != bb and bb in DB.reachable(b0) for b0, _o, _t in ss)]
+            exits = [bb for bb, op, t in ss if (bb, t) not in entries]
+            name = q.split('::{')[0].rsplit('::', 1)[1]
+            kshort = key.rsplit('::', 1)[-1].strip("')")
+            for bb, t in entries:
+                nxt = t.get('t')
+                if nxt is None or not exits:
+                    continue
+                n += 1
+                if DB.all_paths_pass(nxt, set(exits)):
+                    ctx.ok(rule, '%s:%s:every-exit' % (name, kshort), 'every way out after the first write passes a write that puts the value back', ctx.where(DB, bb))
+                else:
+                    ctx.bad(rule, '%s:%s:every-exit' % (name, kshort), '%s changes the thread-local %s and has a way out (an early return, a `?`) that does not pass the write which puts it back: '
+                            'each such call leaves the cell advanced, and what the cell guards (a depth limit, a mode) goes wrong for every later call on the thread' % (name, kshort), ctx.where(DB, bb),
+                            key='SHAPE:%s:thread-local-not-restored-on-every-exit:%s' % (q.split('::{')[0], kshort))
+    if n == 0:
+        ctx.ok(rule, 'none', 'no thread-local cell is set around a call')
